@@ -138,6 +138,26 @@ impl Allocators {
         result
     }
 
+    // Returns true if resize_to() with this layout would discard only free pages
+    pub(super) fn can_resize_to(&self, new_layout: DatabaseLayout) -> bool {
+        let last_region = new_layout
+            .trailing_region_layout()
+            .unwrap_or_else(|| new_layout.full_region_layout());
+        for (i, allocator) in self.region_allocators.iter().enumerate() {
+            let new_pages = match (i + 1).cmp(&(new_layout.num_regions() as usize)) {
+                cmp::Ordering::Less => new_layout.full_region_layout().num_pages(),
+                cmp::Ordering::Equal => last_region.num_pages(),
+                cmp::Ordering::Greater => 0,
+            };
+            if allocator.len() > new_pages
+                && allocator.len() - allocator.trailing_free_pages() > new_pages
+            {
+                return false;
+            }
+        }
+        true
+    }
+
     pub(super) fn resize_to(&mut self, new_layout: DatabaseLayout) {
         let shrink = match (new_layout.num_regions() as usize).cmp(&self.region_allocators.len()) {
             cmp::Ordering::Less => true,
